@@ -338,6 +338,8 @@ def read_sfcf_multi(path, prefix, name_list, quarks_list=['.*'], corr_type_list=
             if "files" in kwargs:
                 if isinstance(kwargs.get("files"), list) and all(isinstance(f, str) for f in kwargs.get("files")):
                     name_ls = kwargs.get("files")
+                    if len(set(name_ls)) != len(name_ls):
+                        raise Exception("files are not unique!")
                 else:
                     raise TypeError("In append mode, files has to be of type list[str]!")
             else:
